@@ -21,6 +21,8 @@
 //!   repro bit 0: A and B produced identical outcomes (record fields 4..15); bit 1: identical draw logs;
 //!         bit 2: C made the same decisions as A (record fields 4..8) and logged the same draws
 //!   (A uses one service handle for all requests, B a fresh clone of its handle per request)
+//!   after the draws: [n; per request the first 8 record fields of instance D] — D is the second service built from
+//!   the same layer value as A, driven like A afterwards (compared with the model only)
 //!   request record = [n_log; k0; k1; k2 (logged kinds, -1 padding); listener events error, latency, pass
 //!                     (counts at the first poll); reported delay ms (-1); inner_called (count); t_call;
 //!                     t_poll (-1 never polled); t_inner (-1); res_kind (0 Ok, 1 Err, -1 pending at the end /
@@ -70,7 +72,7 @@ fn dur(v: i128) -> Duration {
     }
 }
 
-fn build(s: &[i128], t0: tokio::time::Instant, flip_inner: bool) -> Inst {
+fn build(s: &[i128], t0: tokio::time::Instant, flip_inner: bool) -> (Inst, Inst) {
     let inj = zn(s, 0) & 1;
     let route = (zn(s, 0) >> 1) & 15;
     let er = f64::from_bits(zn(s, 1) as u64);
@@ -88,17 +90,22 @@ fn build(s: &[i128], t0: tokio::time::Instant, flip_inner: bool) -> Inst {
         })
         .collect();
     let logs = Arc::new(Logs::default());
-    let l = logs.clone();
-    let inner = tower::service_fn(move |r: i128| {
-        l.inner.lock().unwrap().push((r, now_ms(t0)));
-        let (ik, iv, ms) = kinds.get(r as usize).copied().unwrap_or((0, 0, 0));
-        async move {
-            if ms > 0 {
-                tokio::time::sleep(Duration::from_millis(ms)).await;
+    // the inner service of the second service built from the same layer value logs its calls elsewhere
+    let logs2 = Arc::new(Logs::default());
+    let mk_inner = |l: Arc<Logs>, kinds: Vec<(i128, i128, u64)>| {
+        tower::service_fn(move |r: i128| {
+            l.inner.lock().unwrap().push((r, now_ms(t0)));
+            let (ik, iv, ms) = kinds.get(r as usize).copied().unwrap_or((0, 0, 0));
+            async move {
+                if ms > 0 {
+                    tokio::time::sleep(Duration::from_millis(ms)).await;
+                }
+                if ik == 0 { Ok::<i128, i128>(iv) } else { Err(iv) }
             }
-            if ik == 0 { Ok::<i128, i128>(iv) } else { Err(iv) }
-        }
-    });
+        })
+    };
+    let inner = mk_inner(logs.clone(), kinds.clone());
+    let inner2 = mk_inner(logs2.clone(), kinds);
     // the setter groups, applicable to each of the three builder types
     macro_rules! lat {
         ($b:expr) => { $b.latency_rate(lr).min_latency(mn).max_latency(mx) };
@@ -118,7 +125,7 @@ fn build(s: &[i128], t0: tokio::time::Instant, flip_inner: bool) -> Inst {
     let f = |r: &i128| *r + 7000;
     let decoy = |r: &i128| *r + 9000; // an error function that is replaced before build()
     let b0 = ChaosLayer::builder();
-    let svc: Svc = if inj == 0 {
+    let (svc, svc2): (Svc, Svc) = if inj == 0 {
         // NoErrorInjection: only the order of the setters can vary (error_rate() without error_fn()
         // yields a builder that cannot be built)
         let layer = match route {
@@ -126,7 +133,8 @@ fn build(s: &[i128], t0: tokio::time::Instant, flip_inner: bool) -> Inst {
             1 | 5 | 9 | 13 => lat_rev!(obs!(b0.seed(seed))).build(),
             _ => obs!(lat!(b0.seed(seed ^ 1).latency_rate(0.5)).seed(seed)).build(), // overwritten values
         };
-        tower::util::BoxCloneService::new(layer.layer(inner))
+        // ONE layer value, two services: layer() is called twice on it
+        (tower::util::BoxCloneService::new(layer.layer(inner)), tower::util::BoxCloneService::new(layer.layer(inner2)))
     } else {
         let layer = match route {
             // error_fn(..).error_rate(..) on a fully configured builder (the only route driven before)
@@ -157,9 +165,10 @@ fn build(s: &[i128], t0: tokio::time::Instant, flip_inner: bool) -> Inst {
             14 => obs!(lat!(b0.seed(seed)).error_rate(er).error_fn(decoy)).error_fn(f).build(),
             _ => lat_rev!(obs!(b0.error_fn(decoy).error_rate(er)).seed(seed)).error_fn(f).build(),
         };
-        tower::util::BoxCloneService::new(layer.layer(inner))
+        // ONE layer value, two services: layer() is called twice on it
+        (tower::util::BoxCloneService::new(layer.layer(inner)), tower::util::BoxCloneService::new(layer.layer(inner2)))
     };
-    Inst {
+    let mk = |svc: Svc, logs: Arc<Logs>| Inst {
         svc,
         logs,
         futs: Vec::new(),
@@ -170,7 +179,11 @@ fn build(s: &[i128], t0: tokio::time::Instant, flip_inner: bool) -> Inst {
         deferred: Vec::new(),
         draws: Vec::new(),
         via_clone: false,
-    }
+    };
+    // the listeners belong to the layer's configuration: both services report to `logs`' event counters
+    let second = mk(svc2, Arc::new(Logs { inner: Mutex::new(Vec::new()), ..Default::default() }));
+    let _ = logs2;
+    (mk(svc, logs), second)
 }
 
 impl Inst {
@@ -285,8 +298,8 @@ fn run(s: &[i128]) -> Vec<i128> {
     rt.block_on(async move {
         let t0 = tokio::time::Instant::now();
         let _ = take_draws();
-        let mut a = build(s, t0, false);
-        let mut b = build(s, t0, false);
+        let (mut a, mut d) = build(s, t0, false);
+        let (mut b, _) = build(s, t0, false);
         b.via_clone = true;
         for i in 0..n {
             let gap = zn(s, 8 + 3 * i).max(0) as u64;
@@ -321,7 +334,7 @@ fn run(s: &[i128]) -> Vec<i128> {
         // third instance: other gaps, other inner outcomes, built at another instant, same order and poll discipline
         drop(b);
         advance_ms(3).await;
-        let mut c = build(s, t0, true);
+        let (mut c, _) = build(s, t0, true);
         for i in 0..n {
             let gap = zn(s, 8 + 3 * i).max(0) as u64 + (i as u64 % 3);
             let mode = (zn(s, 8 + 3 * i + 1) >> 1) & 3;
@@ -343,6 +356,29 @@ fn run(s: &[i128]) -> Vec<i128> {
         }
         tr.push(a.draws.len() as i128);
         tr.extend(a.draws.iter().map(|x| *x as i128));
+        // fourth instance D: the SECOND service built from the same layer value as A (layer.layer() once more),
+        // driven like A once A, B and C are done. Not judged by the monitor (the property can be read per layer or per
+        // service); compared with the model: one generator per service, each seeded from the configuration.
+        drop(c);
+        a.futs.clear();
+        d.logs = a.logs.clone(); // the event listeners of the shared configuration count into A's logs
+        for i in 0..n {
+            let gap = zn(s, 8 + 3 * i).max(0) as u64;
+            let mode = (zn(s, 8 + 3 * i + 1) >> 1) & 3;
+            for _ in 0..gap.min(60) {
+                advance_ms(1).await;
+                d.pump(t0);
+            }
+            d.create(i, t0).await;
+            d.after_create(i, mode, t0);
+            settle().await;
+            d.pump(t0);
+        }
+        d.flush_deferred(t0);
+        tr.push(n as i128);
+        for r in d.recs.iter() {
+            tr.extend(r.iter().take(8).copied());
+        }
         tr
     })
 }
